@@ -135,6 +135,14 @@ CLAIMED["C11"] = dict(
     note=TRUST + " Items, patterns and types are not printed from trees (their losslessness is C12's); three call-association deviations are known findings and masked in the generator.",
 )
 
+CLAIMED["C14"] = dict(
+    category="translation_validation",
+    technique="per-project validation: generated multi-package projects are compiled whole (pipeline::compile) and separately (check/build through interface and core JSON files in random topological orders, then link_cores in build or random order) by the real code; acceptance verdicts and check/build interface hashes are compared, and the two real Go ASTs are executed by Sem/GoSem.v inside coqc and must behave alike; the artifact-consistency theorem of C15 (link never mixes interfaces) is re-checked",
+    text="6 dependency shapes over up to 3 libraries + Main, each library exporting a struct, an enum with struct payload, a generic struct with inherent method, a trait with own/foreign impls, generic and bounded generic functions; Main with impls of foreign traits, cross-package generics, dyn coercions and, at random, a second source file with or without its own import line (ill-formed variants must be rejected both ways). No theorem that link o build equals the whole-program pipeline.",
+    design_ref="DESIGN.md §4 C14",
+    note=TRUST + " Sem/GoSem.v is a model of Go; Go texts of the two pipelines differ in declaration order and temporaries, so behaviour (stdout and ending) is compared, not text.",
+)
+
 NOT_YET = {}
 
 def main():
